@@ -8,15 +8,8 @@ import "hash"
 
 const VerifHashBlockSize = hashBlockSize
 
-func VerifCombine(poly, sizeBits, initCrc, xorOut, crc1, crc2, len2 uint64) []byte {
-	return combine(poly, sizeBits, initCrc, xorOut, crc1, crc2, len2)
-}
-
-func VerifGf2MatrixTimes(mat []uint64, vec uint64) uint64 { return gf2_matrix_times(mat, vec) }
-
-func VerifGf2MatrixSquare(square *[]uint64, mat *[]uint64) { gf2_matrix_square(square, mat) }
-
-func VerifBitrev(x, n uint64) uint64 { return bitrev(x, n) }
+// (no wrappers around the unexported combine/gf2 helpers: the harness drives the exported Combine* functions,
+// so a refactoring of the helpers does not break the build)
 
 // VerifPHW wraps the unexported parallelHashWriter.
 type VerifPHW struct{ p *parallelHashWriter }
